@@ -252,7 +252,7 @@ def resume_vs_full(mon, ctx):
     n = 2 if ctx.tier == 'quick' else 12
     for k in range(n):
         root = os.path.join(ctx.tmpdir, 'resume%d' % k)
-        ids = ['a', 'b', 'c']
+        ids = ['a', 'b', 'c'] if k % 2 else ['p.1', 'p', 'q']      # also ids of which one is a dot-prefix of another (processed in sorted order: p.1, p, q)
         pipeline.make_batch(root, ids, seed=ctx.seed * 10 + k, n_lines=3, decoder=dict(carry=True, threshold=None, beam=4, lm_scale=1.0), lm_seed=ctx.seed * 10 + k)
         kinds = ['xml', 'logits']
         r = pipeline.run_main(PF, pipeline.argv_for(root, root + '/full', kinds))
